@@ -20,6 +20,9 @@ package p2p
 //   sethb   <cid> addr=<hex> from=<peerhex> hb=<canonhex@ts> res=<ok|e:toomany|panic> upd=.. tbl=..
 //   cleanup <cid> now=<ns> tbl=..
 //   end     <cid>
+// `hb` lines also carry named=<hex of the guardian_addr STRING inside the body|-> (for the verdict text); `hb` / `req` lines
+// may carry rep=<n>: the same call was made n times in a row and every one was rejected alike, leaving table, update channel
+// and metrics alone (written by floodHb / floodReq, which fall back to one line per call otherwise).
 // table = `-` or `addr:peer=canon@ts,peer=canon@ts;addr:-;...` sorted by address, then by peer.
 
 import (
@@ -170,6 +173,7 @@ type c03Sess struct {
 
 func (g *c03Gen) start(kind string, withUpd bool) *c03Sess {
 	g.n++
+	g.names = nil
 	g.dist[kind]++
 	s := &c03Sess{g: g, cid: fmt.Sprintf("%s%d", kind, g.n)}
 	if withUpd {
@@ -217,10 +221,18 @@ func (s *c03Sess) oracle(body, sig []byte) string {
 }
 
 func (s *c03Sess) hb(dv bool, gs []ethcommon.Address, from peer.ID, body, sig, addr []byte) string {
-	dec := "err"
+	line, res := s.hbCall(dv, gs, from, body, sig, addr)
+	fmt.Fprintf(s.g.w, "%s\n", line)
+	return res
+}
+
+// hbCall makes the call and returns the case line (without newline) and the result
+func (s *c03Sess) hbCall(dv bool, gs []ethcommon.Address, from peer.ID, body, sig, addr []byte) (string, string) {
+	dec, named := "err", "-"
 	var h gossipv1.Heartbeat
 	if err := proto.Unmarshal(body, &h); err == nil {
 		dec = c03CanonHb(&h)
+		named = c03hex([]byte(h.GuardianAddr))
 	}
 	m := &gossipv1.SignedHeartbeat{Heartbeat: body, Signature: sig, GuardianAddr: addr}
 	metBefore := c03Metrics()
@@ -253,13 +265,52 @@ func (s *c03Sess) hb(dv bool, gs []ethcommon.Address, from peer.ID, body, sig, a
 	if dv {
 		d = 1
 	}
-	fmt.Fprintf(s.g.w, "hb %s dv=%d gs=%s from=%s body=%s sig=%s addr=%s %s dec=%s res=%s ret=%s upd=%s met=%d tbl=%s\n",
+	return fmt.Sprintf("hb %s dv=%d gs=%s from=%s body=%s sig=%s addr=%s %s dec=%s named=%s res=%s ret=%s upd=%s met=%d tbl=%s",
 		s.cid, d, c03Addrs(gs), c03hex([]byte(from)), c03hex(body), c03hex(sig), c03hex(addr), s.oracle(body, sig),
-		dec, res, ret, s.drainUpd(), met, c03Table(s.gst))
-	return res
+		dec, named, res, ret, s.drainUpd(), met, c03Table(s.gst)), res
+}
+
+// floodHb / floodReq: the SAME message n times in a row.  When every call is rejected with the same result and leaves
+// everything alone (identical line), ONE line with rep=n is written; otherwise one line per call.
+func (s *c03Sess) floodHb(n int, gs []ethcommon.Address, from peer.ID, body, sig, addr []byte) {
+	lines := make([]string, n)
+	same := true
+	for i := range lines {
+		var res string
+		lines[i], res = s.hbCall(false, gs, from, body, sig, addr)
+		same = same && lines[i] == lines[0] && res != "ok" && res != "panic" && strings.Contains(lines[i], " upd=- met=0 ")
+	}
+	s.writeFlood(lines, same)
+}
+
+func (s *c03Sess) floodReq(n int, gs []ethcommon.Address, body, sig, addr []byte) {
+	lines := make([]string, n)
+	same := true
+	for i := range lines {
+		var res string
+		lines[i], res = s.reqCall(gs, body, sig, addr)
+		same = same && lines[i] == lines[0] && res != "ok" && res != "panic"
+	}
+	s.writeFlood(lines, same)
+}
+
+func (s *c03Sess) writeFlood(lines []string, same bool) {
+	if same && len(lines) > 1 {
+		fmt.Fprintf(s.g.w, "%s rep=%d\n", lines[0], len(lines))
+		return
+	}
+	for _, l := range lines {
+		fmt.Fprintf(s.g.w, "%s\n", l)
+	}
 }
 
 func (s *c03Sess) req(gs []ethcommon.Address, body, sig, addr []byte) string {
+	line, res := s.reqCall(gs, body, sig, addr)
+	fmt.Fprintf(s.g.w, "%s\n", line)
+	return res
+}
+
+func (s *c03Sess) reqCall(gs []ethcommon.Address, body, sig, addr []byte) (string, string) {
 	dec := "err"
 	var r gossipv1.ObservationRequest
 	if err := proto.Unmarshal(body, &r); err == nil {
@@ -287,9 +338,8 @@ func (s *c03Sess) req(gs []ethcommon.Address, body, sig, addr []byte) string {
 		}
 		ret = c03CanonReq(out)
 	}()
-	fmt.Fprintf(s.g.w, "req %s gs=%s body=%s sig=%s addr=%s %s dec=%s res=%s ret=%s tbl=%s\n",
-		s.cid, c03Addrs(gs), c03hex(body), c03hex(sig), c03hex(addr), s.oracle(body, sig), dec, res, ret, c03Table(s.gst))
-	return res
+	return fmt.Sprintf("req %s gs=%s body=%s sig=%s addr=%s %s dec=%s res=%s ret=%s tbl=%s",
+		s.cid, c03Addrs(gs), c03hex(body), c03hex(sig), c03hex(addr), s.oracle(body, sig), dec, res, ret, c03Table(s.gst)), res
 }
 
 func (s *c03Sess) sethb(a ethcommon.Address, from peer.ID, h *gossipv1.Heartbeat) {
@@ -327,6 +377,7 @@ type c03Gen struct {
 	n     int
 	dist  map[string]int
 	zeroK c03Key // a key whose address starts with a zero byte (19-byte envelope addresses pad back to it)
+	names []ethcommon.Address // addresses heartbeat bodies of the current session may name (see nameString)
 }
 
 func (g *c03Gen) bytesN(n int) []byte {
@@ -393,9 +444,42 @@ func (g *c03Gen) tsExpired() int64 {
 	return time.Now().Add(-time.Duration(3+g.r.Intn(120)) * time.Minute).UnixNano()
 }
 
+// the guardian_addr STRING inside a heartbeat body is free text as far as the verifier is concerned (an honest node writes its
+// own address there).  g.names = the addresses the current session's bodies may name (its members and outsiders), set by the
+// session; hbBody draws from: a short junk string, empty, one of g.names in one of four spellings, a 20-byte junk address.
+func (g *c03Gen) nameString() string {
+	r := g.r
+	x := r.Intn(10)
+	switch {
+	case x < 2 || (len(g.names) == 0 && x < 8):
+		return "0x" + hex.EncodeToString(g.bytesN(3))
+	case x < 3:
+		return ""
+	case x < 8:
+		return c03Spell(g.names[r.Intn(len(g.names))], r.Intn(4))
+	}
+	return "0x" + hex.EncodeToString(g.bytesN(20))
+}
+
+func c03Spell(a ethcommon.Address, how int) string {
+	switch how {
+	case 0:
+		return a.Hex() // checksummed, as node.go writes it
+	case 1:
+		return "0x" + hex.EncodeToString(a.Bytes())
+	case 2:
+		return hex.EncodeToString(a.Bytes()) // no 0x
+	}
+	return "0X" + strings.ToUpper(hex.EncodeToString(a.Bytes()))
+}
+
 func (g *c03Gen) hbBody(fresh bool, networks int) []byte {
+	return g.hbBodyNaming(fresh, networks, g.nameString())
+}
+
+func (g *c03Gen) hbBodyNaming(fresh bool, networks int, name string) []byte {
 	h := &gossipv1.Heartbeat{NodeName: fmt.Sprintf("guardian-%d", g.r.Intn(1000)), Counter: int64(g.r.Intn(100000)),
-		Version: "v2.1.0", GuardianAddr: "0x" + hex.EncodeToString(g.bytesN(3)), BootTimestamp: int64(g.r.Intn(1 << 30))}
+		Version: "v2.1.0", GuardianAddr: name, BootTimestamp: int64(g.r.Intn(1 << 30))}
 	if fresh {
 		h.Timestamp = g.tsFresh()
 	} else {
@@ -520,6 +604,7 @@ func (g *c03Gen) mutationSession(n int) {
 	outs := g.keys(2)
 	gs := c03Set(ks)
 	s := g.start("mut", g.r.Intn(2) == 0)
+	g.names = append(c03Set(ks), c03Set(outs)...)
 	for _, si := range []int{0, n - 1, g.r.Intn(n)} {
 		g.runMsgs(s, true, gs, g.mutations(ks, outs, si, c03HbPrefix, c03ReqPrefix, g.hbBody(true, g.r.Intn(3))))
 		g.runMsgs(s, false, gs, g.mutations(ks, outs, si, c03ReqPrefix, c03HbPrefix, g.reqBody()))
@@ -646,6 +731,7 @@ func (g *c03Gen) setChangeSession() {
 	nk := g.key()
 	s := g.start("setchg", g.r.Intn(2) == 0)
 	setA := c03Set(ks)
+	g.names = append(c03Set(ks), nk.a)
 	setB := append(c03Set(ks[1:]), nk.a)
 	type sm struct {
 		k    c03Key
@@ -681,6 +767,7 @@ func (g *c03Gen) capSession(capN int) {
 	ks := g.keys(2)
 	gs := c03Set(ks)
 	s := g.start("cap", g.r.Intn(2) == 0)
+	g.names = gs
 	k := ks[0]
 	send := func(k c03Key, p peer.ID, fresh bool) {
 		b := g.hbBody(fresh, 1)
@@ -710,6 +797,133 @@ func (g *c03Gen) capSession(capN int) {
 	s.end()
 }
 
+// what the heartbeat BODY says about its sender is free text: whichever address it names — the signer's own in every spelling,
+// another member's, an outsider's, the zero address, nothing, something short or long — the entry belongs to the signer
+func (g *c03Gen) namingSession() {
+	ks := g.keys(4)
+	outs := g.keys(2)
+	gs := c03Set(ks)
+	s := g.start("name", g.r.Intn(2) == 0)
+	g.names = append(c03Set(ks), c03Set(outs)...)
+	peers := []peer.ID{g.peer(), g.peer(), g.peer()}
+	send := func(k c03Key, env []byte, name string) {
+		b := g.hbBodyNaming(true, g.r.Intn(2), name)
+		s.hb(false, gs, peers[g.r.Intn(len(peers))], b, c03Sign(k, c03cat(c03HbPrefix, b)), env)
+	}
+	y, z := ks[1], outs[0]
+	for how := 0; how < 4; how++ {
+		x := ks[[]int{0, 2, 3}[g.r.Intn(3)]]
+		send(x, x.a.Bytes(), c03Spell(x.a, how))
+		send(x, x.a.Bytes(), c03Spell(y.a, how))
+		send(x, x.a.Bytes(), c03Spell(z.a, how))
+	}
+	x := ks[0]
+	for _, nm := range []string{"", "0x", "0x1234", "0x" + hex.EncodeToString(y.a.Bytes()[:19]), "0x" + hex.EncodeToString(y.a.Bytes()) + "00",
+		"guardian-1", c03Spell(ethcommon.Address{}, 1), strings.Repeat("f", 40), " " + y.a.Hex(), y.a.Hex() + "\n"} {
+		send(x, x.a.Bytes(), nm)
+	}
+	// an outsider naming a member in the body: in the member's name (rejected), in its own (rejected)
+	send(z, y.a.Bytes(), y.a.Hex())
+	send(z, z.a.Bytes(), y.a.Hex())
+	// the named member's own heartbeats are unaffected by all of this
+	send(y, y.a.Bytes(), y.a.Hex())
+	send(y, y.a.Bytes(), x.a.Hex())
+	s.cleanup()
+	send(y, y.a.Bytes(), y.a.Hex())
+	s.end()
+}
+
+// one member X sends heartbeats from cap+2 peer ids whose bodies all name `victim` (another member, or an outsider): they fill
+// X's own slots, nobody else's; the other member's own heartbeats (from two peers) are stored afterwards
+func (g *c03Gen) hijackSession(capN int, outsider bool) {
+	ks := g.keys(3)
+	outs := g.keys(1)
+	gs := c03Set(ks)
+	s := g.start("hijack", g.r.Intn(2) == 0)
+	g.names = append(c03Set(ks), c03Set(outs)...)
+	x, y := ks[0], ks[1]
+	victim := y.a
+	if outsider {
+		victim = outs[0].a
+	}
+	send := func(k c03Key, p peer.ID, name string) {
+		b := g.hbBodyNaming(true, 0, name)
+		s.hb(false, gs, p, b, c03Sign(k, c03cat(c03HbPrefix, b)), k.a.Bytes())
+	}
+	for i := 0; i < capN+2; i++ {
+		send(x, g.peer(), c03Spell(victim, i%4))
+	}
+	send(y, g.peer(), y.a.Hex())
+	send(y, g.peer(), y.a.Hex())
+	s.cleanup()
+	send(y, g.peer(), y.a.Hex())
+	s.end()
+}
+
+// "dropped without side effects", at scale: guardian Y's genuine heartbeat and request are delivered three times, then the
+// node receives n messages it must drop, all NAMING Y, then the same genuine messages again (and a genuine request it has not
+// seen before).  kind 0: one outsider-signed message n times; 1: the genuine message with one signature bit flipped, n
+// times; 2: n different forged messages (outsider-signed fresh bodies, random signature flips, another member's signature);
+// 3: another member's validly signed message under Y's envelope address, n times.
+func (g *c03Gen) floodSession(n, kind int) {
+	ks := g.keys(3)
+	outs := g.keys(2)
+	gs := c03Set(ks)
+	s := g.start("flood", g.r.Intn(2) == 0)
+	g.names = append(c03Set(ks), c03Set(outs)...)
+	y, w, x := ks[1], ks[2], outs[0]
+	a := y.a.Bytes()
+	p := g.peer()
+	hbB := g.hbBodyNaming(true, 1, y.a.Hex())
+	hbSig := c03Sign(y, c03cat(c03HbPrefix, hbB))
+	rqB := g.reqBody()
+	rqSig := c03Sign(y, c03cat(c03ReqPrefix, rqB))
+	genuine := func() {
+		s.hb(false, gs, p, hbB, hbSig, a)
+		s.req(gs, rqB, rqSig, a)
+	}
+	genuine()
+	genuine()
+	genuine()
+	forger := x
+	if kind == 3 {
+		forger = w
+	}
+	switch kind {
+	case 0, 3:
+		fb := g.reqBody()
+		s.floodReq(n, gs, fb, c03Sign(forger, c03cat(c03ReqPrefix, fb)), a)
+		fh := g.hbBodyNaming(true, 0, y.a.Hex())
+		s.floodHb(n, gs, p, fh, c03Sign(forger, c03cat(c03HbPrefix, fh)), a)
+	case 1:
+		s.floodReq(n, gs, rqB, c03Flip(rqSig, g.r.Intn(64), 0x10), a)
+		s.floodHb(n, gs, p, hbB, c03Flip(hbSig, g.r.Intn(64), 0x10), a)
+	default:
+		for i := 0; i < n; i++ {
+			switch i % 3 {
+			case 0:
+				fb := g.reqBody()
+				s.req(gs, fb, c03Sign(x, c03cat(c03ReqPrefix, fb)), a)
+				fh := g.hbBodyNaming(true, 0, y.a.Hex())
+				s.hb(false, gs, g.peer(), fh, c03Sign(x, c03cat(c03HbPrefix, fh)), a)
+			case 1:
+				s.req(gs, rqB, c03Flip(rqSig, g.r.Intn(64), byte(1<<uint(g.r.Intn(8)))), a)
+				s.hb(false, gs, p, hbB, c03Flip(hbSig, g.r.Intn(64), byte(1<<uint(g.r.Intn(8)))), a)
+			default:
+				fb := g.reqBody()
+				s.req(gs, fb, c03Sign(w, c03cat(c03ReqPrefix, fb)), a)
+				s.hb(false, gs, g.peer(), c03Flip(hbB, g.r.Intn(len(hbB)), 0x01), hbSig, a)
+			}
+		}
+	}
+	genuine()
+	b2 := g.reqBody()
+	s.req(gs, b2, c03Sign(y, c03cat(c03ReqPrefix, b2)), a)
+	h2 := g.hbBodyNaming(true, 0, y.a.Hex())
+	s.hb(false, gs, p, h2, c03Sign(y, c03cat(c03HbPrefix, h2)), a)
+	s.end()
+}
+
 // disableVerify = true: the code stores under the recovered signer without looking at the set (tie only)
 func (g *c03Gen) dvSession() {
 	ks := g.keys(2)
@@ -732,6 +946,7 @@ func (g *c03Gen) randomSession(nops int) {
 	outs := g.keys(2)
 	cur := c03Set(ks)
 	s := g.start("rnd", r.Intn(2) == 0)
+	g.names = append(c03Set(ks), c03Set(outs)...)
 	peers := []peer.ID{g.peer(), g.peer(), g.peer()}
 	for i := 0; i < nops; i++ {
 		si := r.Intn(len(ks))
@@ -750,8 +965,18 @@ func (g *c03Gen) randomSession(nops int) {
 				m = ms[r.Intn(len(ms))]
 			}
 			s.req(cur, m.body, m.sig, m.addr)
-		case x < 80:
+		case x < 76:
 			s.cleanup()
+		case x < 80: // the same (mostly invalid) message many times in a row
+			if r.Intn(2) == 0 {
+				ms := g.mutations(ks, outs, si, c03HbPrefix, c03ReqPrefix, g.hbBody(true, 0))
+				m := ms[1+r.Intn(len(ms)-1)]
+				s.floodHb(2+r.Intn(40), cur, peers[r.Intn(len(peers))], m.body, m.sig, m.addr)
+			} else {
+				ms := g.mutations(ks, outs, si, c03ReqPrefix, c03HbPrefix, g.reqBody())
+				m := ms[1+r.Intn(len(ms)-1)]
+				s.floodReq(2+r.Intn(40), cur, m.body, m.sig, m.addr)
+			}
 		case x < 90: // guardian-set change: drop one, add one, or shuffle
 			switch r.Intn(3) {
 			case 0:
@@ -811,6 +1036,17 @@ func TestVerifC03Gossip(t *testing.T) {
 	if capN >= 1 && capN <= 64 {
 		g.capSession(capN)
 		g.capSession(capN)
+		g.hijackSession(capN, false)
+		g.hijackSession(capN, true)
+	}
+	g.namingSession()
+	g.namingSession()
+	floods := [][2]int{{400, 0}, {150, 1}, {130, 2}, {300, 3}}
+	if tier == "thorough" {
+		floods = append(floods, [2]int{3000, 0}, [2]int{1500, 1}, [2]int{1000, 2}, [2]int{20000, 3})
+	}
+	for _, f := range floods {
+		g.floodSession(f[0], f[1])
 	}
 	g.dvSession()
 	for i := 0; i < nrnd; i++ {
